@@ -18,10 +18,15 @@ def api_jobs(tier):
              "_obligation": "O2", "_covers": ["called"]} for i, n in enumerate(API)]
 
 
+def write_api_jobs(tier):
+    return [dict(j, id=j["id"].replace("O4.", "O3.write-"), conf=dict(j["conf"], **{"for": "C06"}), _obligation="O3") for j in _c20.api_jobs(tier)]
+
+
 PROPERTY = {
     "id": "C06",
     "suites": [{"name": "plumbing", "pkg": "internal/datastore", "files": ["zz_verif_txn.go", "zz_verif_c06.go"], "common": ["intrinsics", "kvmodel", "kvtxn"], "jobs": jobs},
-               dict(_c02.SUITE, name="api", jobs=api_jobs, files=_c20.SAVE_FILES + ["zz_verif_c06api.go"], common=["intrinsics", "kvmodel", "dagenv", "kvtxn"])],
+               dict(_c02.SUITE, name="api", jobs=api_jobs, files=_c20.SAVE_FILES + ["zz_verif_c06api.go"], common=["intrinsics", "kvmodel", "dagenv", "kvtxn"]),
+               dict(_c20.SAVE_SUITE, name="writeapi", jobs=write_api_jobs, redirects=_c20.API_REDIR, files=_c20.SAVE_FILES + ["zz_verif_c20api.go"], common=["intrinsics", "kvmodel", "dagenv", "kvtxn"])],
     "bounds": {"API level (O2)": "collection.GetAllDocIDs / Exists / Get inside one explicit transaction of a real db.NewTxn over the transactional store model; three documents: committed before the transaction started / written by the transaction / committed by someone else afterwards (each present or not: inputs); the scan goroutine of GetAllDocIDs runs under every schedule with 1 preemption",
                "transactions": 2, "schedule": "4 (thorough 5) steps, each a write / read / commit / discard of one of the two transactions", "store accessors": "two per schedule out of data, head, system, peer, root (pairs data-head, system-peer, root-data, head-peer)", "keys": "one key, the same bytes under both accessors", "values": "one symbolic byte"},
     "assumptions": ["the store is the kvtxn model of the corekv contract: snapshot reads, own writes, read-write conflict detection at commit, nothing applied by a conflicting or discarded transaction"],
